@@ -4,7 +4,8 @@ using namespace vf;
 
 namespace {
 
-void case_impl(Ctx &c, bool faults) {
+void case_impl(Ctx &c, int variant) {
+  const bool faults = variant == 1, from_cb = variant == 2;
   Sim s(c); World w(s);
   s.nodeid = (uint8_t)(1 + c.t.below(127));
   w.mandatory();
@@ -46,7 +47,7 @@ void case_impl(Ctx &c, bool faults) {
     if (!exp.empty()) CHECK(c, s.tx.back().d[2] == model_reg(), "emcy-register-byte", "%s: last frame carries error register %02X, expected the updated register %02X", what, s.tx.back().d[2], model_reg());
     s.clear_tx();
   };
-  int steps = 0, send_faults = 0;
+  int steps = 0, send_faults = 0, from_cb_cnt = 0;
   while (!c.t.exhausted() && steps < (c.thorough ? 120 : 60)) {
     steps++; c.ops++;
     static const uint16_t W[9] = {40, 22, 6, 8, 10, 8, 6, 4, 4};
@@ -101,8 +102,27 @@ void case_impl(Ctx &c, bool faults) {
       for (size_t i = 0; i < mh.size(); i++) { code = cl.read(0x1003, (uint8_t)(i + 1), &v); CHECK(c, code == 0 && v == mh[i], "history-newest-first", "1003h:%zu reads %08X (abort %08X), expected %08X (newest first)", i + 1, v, code, mh[i]); }
       s.clear_tx();
     } else if (op == 5) { // NMT state
-      uint32_t m = c.t.below(3); s.rx(Frame::mk(0, 2, {(uint8_t)(m == 0 ? 1 : m == 1 ? 128 : 2), 0})); mode = m == 0 ? 3 : m == 1 ? 2 : 4; VLOG(c, "NMT -> mode %d", mode);
-      CHECK(c, s.tx.empty(), "one-frame-per-transition", "an NMT state change made the node transmit %zu frame(s)", s.tx.size());
+      uint32_t m = c.t.below(3);
+      // mode from-mode-change-callback: the application sets or clears an error from inside CONmtModeChange; the NMT state that permits the
+      // frame or not is the one CONmtGetMode reports to the application at that moment
+      int cbe = -1; bool cbset = false, cbran = false; int cbmode = 0;
+      if (from_cb && c.t.chance(170)) { cbe = (int)c.t.below(NE); cbset = c.t.coin();
+        s.mode_change_hook = [&](int) { if (cbran) return; cbran = true; cbmode = (int)CONmtGetMode(&s.node->Nmt); if (cbset) COEmcySet(&s.node->Emcy, (uint8_t)cbe, 0); else COEmcyClr(&s.node->Emcy, (uint8_t)cbe); }; }
+      s.rx(Frame::mk(0, 2, {(uint8_t)(m == 0 ? 1 : m == 1 ? 128 : 2), 0})); s.mode_change_hook = nullptr;
+      int newmode = m == 0 ? 3 : m == 1 ? 2 : 4;
+      if (cbe >= 0) CHECK(c, cbran == (newmode != mode), "harness", "mode-change callback %s for the transition %d -> %d", cbran ? "ran" : "did not run", mode, newmode);
+      std::vector<XF> exp;
+      if (cbran) {
+        CHECK(c, cbmode == mode || cbmode == newmode, "harness", "CONmtGetMode inside the mode-change callback reports %d during the transition %d -> %d", cbmode, mode, newmode);
+        int keep = mode; mode = cbmode;
+        if (cbset && !active[cbe]) { active[cbe] = true; activations++; if (depth) { mh.insert(mh.begin(), (uint32_t)s.emcy[cbe].Code); if ((int)mh.size() > depth) { mh.resize(depth); wrapped = true; } } if (frames_ok()) { XF x; x.code = s.emcy[cbe].Code; x.usr = false; exp.push_back(x); } }
+        else if (!cbset && active[cbe]) { active[cbe] = false; if (frames_ok()) { XF x; x.code = 0; x.usr = false; exp.push_back(x); } }
+        mode = keep; from_cb_cnt++;
+        VLOG(c, "  in the mode-change callback (CONmtGetMode = %d): %s(%d)", cbmode, cbset ? "set" : "clr", cbe);
+      }
+      mode = newmode; VLOG(c, "NMT -> mode %d", mode);
+      if (cbran) check_frames(exp, "error set/cleared from inside the mode-change callback");
+      else CHECK(c, s.tx.empty(), "one-frame-per-transition", "an NMT state change made the node transmit %zu frame(s)", s.tx.size());
     } else if (op == 6) { // rewrite 1014h
       if (!(mode == 2 || mode == 3)) continue;
       uint32_t nv = c.t.coin() ? (cob ^ 0x80000000u) : ((c.t.coin() ? 0x80000000u : 0) | (0x80u + c.t.below(0x700)));
@@ -126,13 +146,15 @@ void case_impl(Ctx &c, bool faults) {
   }
   if (shared_bit || wrapped) c.nontrivial = true;
   if (send_faults) c.cls("emcy-frame-refused-by-the-driver");
+  if (from_cb_cnt) c.cls("error-changed-from-inside-the-mode-change-callback");
   if (shared_bit) c.cls("two-errors-share-a-register-bit");
   if (wrapped) c.cls("history-wrapped");
   if (depth == 0) c.cls("no-history-object");
 }
 
-void one_case(Ctx &c) { case_impl(c, false); }
-void faults_case(Ctx &c) { case_impl(c, true); }
+void one_case(Ctx &c) { case_impl(c, 0); }
+void faults_case(Ctx &c) { case_impl(c, 1); }
+void cb_case(Ctx &c) { case_impl(c, 2); }
 
 Registrar reg(Prop{
     "C15",
@@ -141,7 +163,8 @@ Registrar reg(Prop{
     "Oracle: reference model after every step: active set (COEmcyGet), count (COEmcyCnt), 1001h bits, EMCY frames (exactly one per real transition, code, updated register byte, 5 manufacturer bytes, identifier = 1014h; none for silent reset, outside PRE-OP/OP or with an invalid COB-ID), history newest-first with its count, clear on write 0, 0609 0030h otherwise. "
     "Non-trivial: two errors sharing a register bit were active together, or the history wrapped. Distinct = distinct decoded choice sequence.",
     {Mode{"random", one_case, false, 1000000, 14000000, 0, 0, 260, 500},
-     Mode{"send-faults", faults_case, false, 500000, 6000000, 0, 0, 260, 500}},
+     Mode{"send-faults", faults_case, false, 500000, 6000000, 0, 0, 260, 500},
+     Mode{"from-mode-change-callback", cb_case, false, 300000, 4000000, 0, 0, 260, 500}},
     {"in a non-silent COEmcyReset only the register byte of the last frame is compared with the final register", "reading history sub-indices beyond the current count is not constrained by the statement and not generated"}});
 
 }  // namespace
